@@ -352,7 +352,7 @@ type ecase struct {
 	slot  int
 }
 
-var pointEdits = []string{"inf", "gen", "neg", "double"}
+var pointEdits = []string{"inf", "gen", "neg", "double", "plusTorsion", "nonsubgroup"} // the last two only where the cofactor is > 1
 
 // emptiedChallenge returns the image of x with the Challenge field removed (length byte 0).
 func emptiedChallenge(ph *Phase, x *Contribution) []byte {
